@@ -653,11 +653,14 @@ impl MaskPair {
 }
 
 /// Observation hook so the selftest can corrupt what the oracle sees.
-pub static CORRUPT_SELECTED: std::sync::atomic::AtomicU64 = std::sync::atomic::AtomicU64::new(u64::MAX);
+pub static CORRUPT_SELECTED: std::sync::atomic::AtomicU64 = std::sync::atomic::AtomicU64::new(0);
+pub static CORRUPT_ON: std::sync::atomic::AtomicBool = std::sync::atomic::AtomicBool::new(false);
 
 pub fn obs_selected(m: &RowIdMask, x: u64) -> bool {
     let v = m.selected(x);
-    if CORRUPT_SELECTED.load(std::sync::atomic::Ordering::Relaxed) == x {
+    if CORRUPT_ON.load(std::sync::atomic::Ordering::Relaxed)
+        && CORRUPT_SELECTED.load(std::sync::atomic::Ordering::Relaxed) == x
+    {
         !v
     } else {
         v
